@@ -3,6 +3,7 @@ from __future__ import annotations
 
 import ast
 
+from ..blocks import block_refs
 from ..core import Ctx
 from ..symex import SUMMARIZER, expand, strip_ifexp_paths, u, main_leaf, main_path, side_paths
 
@@ -192,7 +193,7 @@ def wiring(ctx: Ctx):
         (MM, "_ColumnProportionsSmoothed", "_intersections"): f"{W}[1][1] / {B}[1][1]",
         (MM, "_ColumnIndexSmoothed", "blocks"): "NanSubtotals.blocks(self._smoother.smooth(self._column_index), self._dimensions)",
         (MM, "_MeansSmoothed", "blocks"): "NanSubtotals.blocks(self._smoother.smooth(self._cube_measures.cube_means.means), self._dimensions)",
-        (MM, "_ScaleMeanSmoothed", "_proportions"): f"[self._smoother.smooth({SOM}.column_proportions.blocks[0][0]), self._smoother.smooth({SOM}.column_proportions.blocks[0][1])]",
+        (MM, "_ScaleMeanSmoothed", "_proportions"): f"[self._smoother.smooth({SOM}.column_proportions.blocks[0][0]), {SOM}.column_proportions.blocks[0][1]]",
         (SM, "_MeansSmoothed", "base_values"): "self._smoother.smooth(self._cube_measures.cube_means.means)",
     }
     for (short, cname, member), want in spec.items():
@@ -212,6 +213,21 @@ def wiring(ctx: Ctx):
         has = any(isinstance(n, ast.Call) and isinstance(n.func, ast.Attribute) and n.func.attr == "smooth" for n in ast.walk(e))
         ctx.ob("wiring.smoothed-blocks", f"{MM}::_ColumnProportionsSmoothed.{member}", "passes through smooth()" if has else "not smoothed", "smoothed" if smoothed else "not smoothed", has == smoothed,
                "base values and inserted rows are series along the columns axis; inserted columns and intersections are not")
+    # the same for the proportions the smoothed SCALE MEAN is taken of ("the scale mean of the smoothed proportions"): the
+    # base columns are periods, the inserted columns are not - smoothed along their own axis the first w-1 of them turn
+    # NaN and the others average unrelated subtotals
+    sm = ctx.repo.cls(MM, "_ScaleMeanSmoothed")
+    if ctx.repo.lookup(sm, "_proportions") is not None:
+        e = expand(ctx.repo, sm, "_proportions", stop=lambda mm: mm.name in ("_smoother",))
+        where = f"{MM}::_ScaleMeanSmoothed._proportions"
+        if isinstance(e, (ast.List, ast.Tuple)) and len(e.elts) == 2:
+            for k, (elt, smoothed, what) in enumerate(zip(e.elts, (True, False), ("base columns (the periods)", "inserted columns"))):
+                has = any(isinstance(n, ast.Call) and isinstance(n.func, ast.Attribute) and n.func.attr == "smooth" for n in ast.walk(elt))
+                refs = sorted({(r.i, r.j) for r in block_refs(elt)})
+                ctx.ob("wiring.smoothed-blocks", where + f" [{k}: {what}]", f"blocks {refs} " + ("pass through smooth()" if has else "not smoothed"), "smoothed" if smoothed else "not smoothed (as the inserted columns of the smoothed proportions)", has == smoothed,
+                       "inserted columns are not consecutive periods: the scale mean of an inserted column is that of its own (unsmoothed) proportions")
+        else:
+            ctx.undecided("wiring.smoothed-blocks", where, u(e)[:120], "[smoothed base columns, unsmoothed inserted columns]")
     # ... and a smoothed block is NaN only where its unsmoothed twin is: the NaN flags (`diff_rows_nan`, `diff_cols_nan`) a
     # smoothed member hands to a subtotal builder are those of the same member of the unsmoothed class
     twin = ctx.repo.cls(MM, "_ColumnProportions")
@@ -234,6 +250,35 @@ def wiring(ctx: Ctx):
         for n in ast.walk(m.node):
             if isinstance(n, ast.Call) and isinstance(n.func, ast.Attribute) and n.func.attr == "smooth":
                 sites.setdefault((m.cls.module.path.split("cr/cube/")[-1], m.cls.name), []).append((m, n))
+    # ... and what is smoothed is the measure ITSELF, NaN periods included: a window that contains a period without a
+    # value has no arithmetic mean.  A NaN-masked operand (zeros in place of NaN, an "answered" indicator series) or a
+    # quotient of two smoothed series is a NaN-skipping average: periods the property leaves undefined get a value
+    from ..stmts import resolver
+
+    NAN_MASKING = ("np.where", "np.nan_to_num", "np.isnan", "np.isfinite", "np.nansum", "np.nanmean", "np.ma.masked_invalid", "np.ma.masked_array")
+    n_ops = 0
+    for (short_, cname_), calls_ in sorted(sites.items()):
+        for m_, call in calls_:
+            res = resolver(m_.node, multi=True)
+            n_ops += 1
+            where_ = f"{short_}::{cname_}.{m_.name} [smoothed operand]"
+            masked = sorted({u(x.func) for a in call.args for v in res(a) for x in ast.walk(v) if isinstance(x, ast.Call) and u(x.func) in NAN_MASKING})
+            if masked:
+                ctx.violated("wiring.operand", where_, f"the smoothed operand is built with {masked}: {u(call)[:90]}", "the measure's own values, NaN periods included",
+                             "with NaN replaced before smoothing, a window that contains a period without a value gets a value: the average skips the period instead of being undefined")
+            else:
+                ctx.held("wiring.operand", where_, u(call)[:100], "the measure's own values, NaN periods included")
+        for m_ in {id(mm): mm for mm, _c in calls_}.values():
+            res = resolver(m_.node, multi=True)
+            for b in ast.walk(m_.node):
+                if isinstance(b, ast.BinOp) and isinstance(b.op, ast.Div):
+                    def smoothed(x):
+                        return any(isinstance(c, ast.Call) and isinstance(c.func, ast.Attribute) and c.func.attr == "smooth" for v in res(x) for c in ast.walk(v))
+                    if smoothed(b.left) and smoothed(b.right):
+                        ctx.violated("wiring.operand", f"{short_}::{cname_}.{m_.name} [quotient of smoothed series]", u(b)[:100], "one smoothed series per measure",
+                                     "a smoothed total over a smoothed count is a NaN-skipping (or re-weighted) average, not the moving average of the measure")
+    ctx.count("smoothed operands", n_ops)
+    ctx.require_min("smoothed operands", 6)
     outside = sorted(k for k in sites if k not in allowed)
     if outside:
         ctx.violated("wiring.sites", "package: calls of .smooth()", [f"{a}::{b}" for a, b in outside], sorted(f"{a}::{b}" for a, b in allowed), "the smoother is applied to the listed measures and to nothing else")
